@@ -23,6 +23,7 @@ Physical model (documented envelope, also listed in the checks' ASSUMPTIONS):
     plunger is plunged by the world's player after a bounded delay whenever a ball rests in it.
 Nothing teleports: every move is leave-switch -> transit time -> arrive-switch.
 """
+import collections
 import os
 import random
 
@@ -176,6 +177,7 @@ class PDev:
         self.switch_names = []
         self.rest_since = {}                     # ball id -> time it came to rest here
         self.plunge_pending = False
+        self.entrance_busy_until = -1.0
         self.coil_on = False
 
     def count(self):
@@ -233,7 +235,7 @@ class World:
         self.total_balls = len(self.balls)
         self.pending = 0          # scheduled physics callbacks not yet executed
         self.last_change = self.now()
-        self.trace = []           # physical history (bounded)
+        self.trace = collections.deque(maxlen=400)      # physical history (most recent events)
         self.stats = {"coil_cmds": 0, "launches": 0, "arrivals": 0, "drains": 0, "lock_shots": 0, "plunges": 0,
                       "pf_hits": 0, "fault_weak": 0, "fault_back_early": 0, "fault_back_late": 0, "fault_late": 0,
                       "fault_stray": 0, "pulse_on_empty": 0, "overflow_bounce": 0, "switch_reports": 0}
@@ -262,8 +264,7 @@ class World:
         return self.next_ball
 
     def _log(self, *what):
-        if len(self.trace) < 400:
-            self.trace.append([round(self.now(), 3)] + list(what))
+        self.trace.append([round(self.now(), 3)] + list(what))
 
     def _emit(self, kind, **info):
         for cb in self.listeners:
@@ -460,6 +461,14 @@ class World:
             self._log("arrive", dst, ball, src)
             self.report(td.switch_names[i], 1)
         else:
+            if self.now() < td.entrance_busy_until:
+                # two balls cannot pass one entrance switch at the same time: the second one queues behind the first
+                # and closes the switch only after it has opened again
+                self.stats["arrivals"] -= 1
+                self.arrival_log.pop()
+                self.after(td.entrance_busy_until - self.now() + self._u(0.03, 0.1), self._arrive, ball, src, dst,
+                           by_mpf, outcome)
+                return
             if len(td.inside) >= td.capacity:
                 self._bounce(ball, src, dst, by_mpf)
                 return
@@ -469,7 +478,9 @@ class World:
             self._log("arrive", dst, ball, src)
             sn = td.switch_names[0]
             self.report(sn, 1)
-            self.after(self._u(0.02, 0.09), self.report, sn, 0)
+            closed_for = self._u(0.02, 0.09)
+            td.entrance_busy_until = self.now() + closed_for
+            self.after(closed_for, self.report, sn, 0)
         if by_mpf and src != dst:
             self.deliveries[dst] = self.deliveries.get(dst, 0) + 1
             self._emit("delivered", target=dst, src=src, ball=ball)
